@@ -10,10 +10,10 @@ DRIVER = "c19_driver.py"
 SHARD = 40
 THEOREMS = [
     "C19_mro_is_c3", "C19_super_spec_exact", "C19_super_excludes_self_and_earlier",
-    "C19_super_ignores_instance_declarations", "C19_super_cache_transparent",
-    "C19_earlier_queries_irrelevant", "C19_implementedBy_eq_providedBy_on_super",
-    "C19_super_adaptation", "C19_super_multi_adaptation", "C19_super_adapter_selected",
-    "C19_flat_semantics", "C19_notified_exactly_dependents",
+    "C19_super_without_remainder_raises", "C19_super_ignores_instance_declarations",
+    "C19_super_cache_transparent", "C19_earlier_queries_irrelevant",
+    "C19_implementedBy_eq_providedBy_on_super", "C19_super_adaptation", "C19_super_multi_adaptation",
+    "C19_super_adapter_selected", "C19_flat_semantics", "C19_notified_exactly_dependents",
 ]
 RULE = ("class DAGs of 1-6 classes above object (chains, diamonds, mixins without declarations, "
         "implementer_only classes) over 2-5 interfaces, 1-3 instances with direct declarations; "
